@@ -421,7 +421,7 @@ func c02R2(c *Ctx, g *gossipAnchors, rule string) {
 
 func c02R3(c *Ctx, g *gossipAnchors) {
 	p := c.P
-	c.floor("C02.R3", 4)
+	c.floor("C02.R3", 5)
 	deT := p.NamedType(gsPkg, "deltaEntry")
 	deEntries := p.Field(gsPkg, "deltaEntry", "Entries")
 	if deT == nil || deEntries == nil {
@@ -491,6 +491,41 @@ func c02R3(c *Ctx, g *gossipAnchors) {
 			c.check(newer && extra == 0, "C02.R3", fnName(f)+"/append-filter", ap.Pos(),
 				"an entry is included exactly when entry.Version > fromVersion",
 				"the delta does not contain exactly the entries newer than the requester's version; facts at the append "+factStrings(facts))
+		}
+		// the scan over the node's entries is complete: the loop is left only when the range is exhausted
+		for _, ap := range appends {
+			hdr := loopHeader(ap.Block())
+			if hdr == nil {
+				c.fail("C02.R3", fnName(f)+"/scan-complete", ap.Pos(), "entries are not collected in a loop over the node's entries")
+				continue
+			}
+			inLoop := func(b *ssa.BasicBlock) bool { return hdr.Dominates(b) && reachesBlock(b, hdr) }
+			bad := ""
+			for _, b := range f.Blocks {
+				if !inLoop(b) {
+					continue
+				}
+				for _, sb := range b.Succs {
+					if inLoop(sb) {
+						continue
+					}
+					if b != hdr {
+						bad = "the loop over the node's entries can be left early at " + p.pos(b.Instrs[len(b.Instrs)-1].Pos()) + ": entries newer than the requester's version are left out, and since the map order is arbitrary the delta is no longer a version-ordered suffix"
+					}
+				}
+			}
+			// and it ranges over the node's Entries map
+			ranged := false
+			for _, in := range hdr.Instrs {
+				if nx, ok := in.(*ssa.Next); ok {
+					if rg, ok := nx.Iter.(*ssa.Range); ok {
+						if _, ok := loadedField(rg.X, g.entriesF); ok {
+							ranged = true
+						}
+					}
+				}
+			}
+			c.check(bad == "" && ranged, "C02.R3", fnName(f)+"/scan-complete", ap.Pos(), "every entry of the node is examined", bad)
 		}
 		// sorted ascending by version on every path to return
 		for _, r := range returnsOf(f) {
